@@ -294,6 +294,11 @@ class StmtMixin(object):
                 and len(test.args) == 2 and isinstance(test.args[0], pyast.Name):
             name = test.args[0].id
             kind = 'isinstance'
+        elif isinstance(test, pyast.Call) and isinstance(test.func, pyast.Name) and test.func.id == 'hasattr' \
+                and len(test.args) == 2 and isinstance(test.args[0], pyast.Name) and isinstance(test.args[1], pyast.Constant) \
+                and isinstance(test.args[1].value, str):
+            name = test.args[0].id
+            kind = 'hasattr'
         else:
             return
         v = st.vars.get(name)
@@ -303,6 +308,29 @@ class StmtMixin(object):
         if kind == 'truthy':
             if positive and h.opt:
                 st.vars[name] = V(v.t, h.with_opt(False))
+            return
+        if kind == 'hasattr' and h.kind == 'obj':
+            # a class-level attribute (method, property): present or absent per class, so the test selects classes
+            import inspect as _inspect
+            from .model import SCHEMA
+            attr = test.args[1].value
+            subs = []
+            for c in h.classes:
+                subs.extend(UNIVERSE.subclasses(c))
+            subs = list(dict.fromkeys(subs))
+            have, lack = [], []
+            for d in subs:
+                try:
+                    _inspect.getattr_static(d, attr)
+                    have.append(d)
+                except AttributeError:
+                    if any((k, attr) in SCHEMA for k in d.__mro__):
+                        return          # an instance field of some class: presence is a run-time matter
+                    lack.append(d)
+            keep = have if positive else lack
+            if keep and (have and lack):
+                mins = [d for d in keep if not any(e is not d and issubclass(d, e) and e in keep for e in keep)]
+                st.vars[name] = V(v.t, TypeSpec('obj', tuple(mins), False if positive else h.opt, exact=False))
             return
         if kind == 'isinstance' and h.kind == 'obj':
             try:
